@@ -395,6 +395,87 @@ fn run_boundary_keys(cx: &mut CaseCx, case: &Value) {
   cx.sample(json!({"t": t, "measurements": format!("measurement-{}..{}", lo, lo + 250), "boundary_keys_found": hits}));
 }
 
+
+/// Mixed groupings over NEIGHBOURING inputs: shares of a measurement plus shares of every measurement (and
+/// of the same measurement under every epoch) a canonicalisation or an empty-input shortcut could merge
+/// with it - no measurement reaches its threshold, so group_shares must return nothing.
+fn run_neighbour_mixtures(cx: &mut CaseCx, case: &Value) {
+  let t = case["t"].as_u64().unwrap() as u32;
+  let eps = epochs();
+  let epoch = eps[case["e"].as_u64().unwrap() as usize % eps.len()].clone();
+  let bases: Vec<Vec<u8>> = vec![vec![], epoch.as_bytes().to_vec(), b"a".to_vec(), b"https://example.com/some/page".to_vec()];
+  for m in bases {
+    let d = json!({"t": t, "measurement": hexs(&m), "epoch": epoch});
+    // neighbours of the measurement (same epoch) and neighbours of the epoch (same measurement)
+    let mut others: Vec<(String, Vec<u8>, String)> = vec![];
+    let mut nm = super::c04::neighbours(&m);
+    nm.push(("empty".into(), vec![]));
+    nm.push(("equal to the epoch".into(), epoch.as_bytes().to_vec()));
+    nm.push(("the epoch twice".into(), [epoch.as_bytes(), epoch.as_bytes()].concat()));
+    for (how, n) in nm {
+      if n != m {
+        others.push((format!("measurement {}", how), n, epoch.clone()));
+      }
+    }
+    for (how, n) in super::c04::neighbours(epoch.as_bytes()) {
+      if let Ok(e2) = String::from_utf8(n) {
+        if e2 != epoch {
+          others.push((format!("same measurement under the epoch {}", how), m.clone(), e2));
+        }
+      }
+    }
+    let mut own: Vec<Created> = vec![];
+    for i in 0..(t as usize - 1) {
+      getrandom::verif::set_group(1 + i as u32);
+      match create(cx, &m, t, &epoch, &d) {
+        Some(c) => own.push(c),
+        None => return,
+      }
+    }
+    for (how, m2, e2) in others {
+      let mut foreign: Vec<Created> = vec![];
+      for i in 0..(t as usize - 1) {
+        getrandom::verif::set_group(60 + i as u32);
+        if let Some(c) = create(cx, &m2, t, &e2, &d) {
+          foreign.push(c);
+        }
+      }
+      if foreign.len() != t as usize - 1 {
+        return;
+      }
+      // every split k own + (t-k) foreign shares and the whole pool, both orders
+      let mut colls: Vec<Vec<&Created>> = vec![];
+      for k in 1..t as usize {
+        let c: Vec<&Created> = own.iter().take(k).chain(foreign.iter().take(t as usize - k)).collect();
+        let mut r = c.clone();
+        r.reverse();
+        colls.push(c);
+        colls.push(r);
+      }
+      colls.push(own.iter().chain(foreign.iter()).collect());
+      for coll in colls {
+        let joined = coll.iter().map(|c| c.share_b64.clone()).collect::<Vec<_>>().join("\n");
+        cx.eval();
+        cx.count("states", 1);
+        cx.count("transitions", 1);
+        cx.nontrivial(fnv_str(&format!("{}|{}|{}|{}", case, hexs(&m), how, joined.len())));
+        match guard(|| star_wasm::group_shares(&joined, &epoch)) {
+          Ok(None) => cx.count("mixture_none", 1),
+          Ok(Some(k)) => {
+            cx.viol("C17/group_shares-mixture-yields-key/neighbour", format!("{} share(s) of a measurement mixed with share(s) of another input ({}) yield a key ({}...) although no measurement reaches the threshold {}", t - 1, how, k.chars().take(8).collect::<String>(), t), json!({"t": t, "measurement": hexs(&m), "epoch": epoch, "other_measurement": hexs(&m2), "other_epoch": e2, "relation": how}));
+            return;
+          }
+          Err(p) => {
+            cx.viol("C17/group_shares-panicked", p, d.clone());
+            return;
+          }
+        }
+      }
+    }
+  }
+  cx.outcome(format!("t={}", t));
+}
+
 pub fn spec() -> PropSpec {
   PropSpec {
     id: "C17",
@@ -423,6 +504,21 @@ pub fn spec() -> PropSpec {
       },
       run: run_cfg,
       min_counts: &[("grouped_ok", 1000), ("below_threshold_none", 100), ("wrong_epoch_no_key", 1000), ("mixture_none", 100)],
+    },
+    Check {
+      name: "neighbour-mixtures",
+      rule: "t in {2,3} x 11 epochs x base measurements {empty, the epoch's own bytes, 'a', a URL}: t-1 shares of the base mixed (every split, both orders, whole pool) with shares of EVERY neighbouring input - the measurement under each single-bit flip, appended / prepended byte, dropped byte, case folding, trimming ..., the empty measurement, the measurement equal to the epoch, and the same measurement under each neighbouring (valid UTF-8) epoch: no measurement reaches its threshold, group_shares returns nothing",
+      gen: |_| {
+        let mut v = vec![];
+        for t in [2u64, 3] {
+          for e in 0..epochs().len() {
+            v.push(json!({"t": t, "e": e}));
+          }
+        }
+        v
+      },
+      run: run_neighbour_mixtures,
+      min_counts: &[("mixture_none", 5000)],
     },
     Check {
       name: "call-history",
